@@ -61,6 +61,8 @@ def shape_elem_kind(sh):
 
 
 def make_symbolic(I, sh, name):
+    if isinstance(sh, tuple):
+        return tuple(make_symbolic(I, x, '%s_%d' % (name, i)) for i, x in enumerate(sh))
     k = sh.kind
     kw = sh.kw
     if k == 'int':
@@ -73,9 +75,19 @@ def make_symbolic(I, sh, name):
     if k == 'bool':
         return SBool(I.fresh_bool(name))
     if k == 'bytes':
-        t = I.fresh_seq(name)
-        if 'len' in kw:
-            I.assume(z3.Length(t) == kw['len'])
+        if 'len' in kw and isinstance(kw['len'], int) and kw['len'] <= 64 and kw.get('explicit', True):
+            # fixed small length: explicit units, so that indexing and slicing stay syntactic
+            I.seq_mode = True
+            units = []
+            for i in range(kw['len']):
+                e = I.fresh_int('%s_%d' % (name, i))
+                I.st.pc.append(z3.And(e >= 0, e < 256))
+                units.append(z3.Unit(e))
+            t = I.mk_concat(units) if units else z3.Empty(SeqS)
+        else:
+            t = I.fresh_seq(name)
+            if 'len' in kw:
+                I.assume(z3.Length(t) == kw['len'])
         v = SSeq(t, kw.get('cls', bytes))
         if kw.get('attrs'):
             v.attrs = {an: make_symbolic(I, ash, '%s_%s' % (name, an)) for an, ash in kw['attrs'].items()}
